@@ -55,6 +55,7 @@ def c09(rep, tier, seed):
     if tier == "quick":
         suite_join.gen(rep, tier, '{"inner"}', '{"many_to_many"}', cl, hashseeds=seeds[:1], scopes=[(2, 2)])
     suite_join.trace(rep, tier, seed, cl, kinds=("inner",), hashseed=seed % 1000)
+    suite_vec.forms(rep, ("form_join",))                  # keys by stored name / column object / equal vector / accessor spelling
     suite_repo.validate(rep, {"join"}, cl)
     suite_heap.gen(rep, tier, "obst4", ("obs_join",))      # joins after write histories of the operands (also as right table, expect words in sequence)
 
@@ -68,6 +69,7 @@ def c10(rep, tier, seed):
     if tier == "quick":
         suite_join.gen(rep, tier, '{"left","full"}', '{"many_to_many"}', cl, hashseeds=seeds[:1], scopes=[(2, 2)])
     suite_join.trace(rep, tier, seed, cl, kinds=("left", "full"), hashseed=seed % 1000)
+    suite_vec.forms(rep, ("form_join",))
     suite_repo.validate(rep, {"join"}, cl)
     suite_heap.gen(rep, tier, "obst4", ("obs_join",))      # joins after write histories of the operands (also as right table, expect words in sequence)
 
@@ -94,6 +96,7 @@ def c12(rep, tier, seed):
     seeds = (0, 1) if tier == "quick" else (0, 1, 2, 3, 5, 8)
     suite_group.gen(rep, tier, suite_group.C12_CLAUSES, hashseeds=seeds)
     suite_group.trace(rep, tier, seed, suite_group.C12_CLAUSES, ops=("aggregate", "reduce"))
+    suite_vec.forms(rep, ("form_aggregate",))
     suite_repo.validate(rep, {"group"}, suite_group.C12_CLAUSES)
     suite_heap.gen(rep, tier, "obsv1", ("obs_stats",))
     suite_heap.gen(rep, tier, "obst4", ("obs_agg",))
@@ -104,6 +107,7 @@ def c13(rep, tier, seed):
     suite_group.mc(rep, tier)
     suite_group.gen(rep, tier, suite_group.C13_CLAUSES)
     suite_group.trace(rep, tier, seed, suite_group.C13_CLAUSES, ops=("window",))
+    suite_vec.forms(rep, ("form_window",))
     suite_repo.validate(rep, {"group"}, suite_group.C13_CLAUSES)
     suite_heap.gen(rep, tier, "obst4", ("obs_agg",))
 
@@ -113,6 +117,7 @@ def c14(rep, tier, seed):
     suite_sort.mc(rep, tier)
     suite_sort.gen(rep, tier)
     suite_sort.trace(rep, tier, seed)
+    suite_vec.forms(rep, ("form_sort_by",))
     suite_repo.validate(rep, {"sort"}, suite_sort.CLAUSES + ("sort_rows",))
     suite_heap.gen(rep, tier, "obsv2", ("obs_sort",))
     suite_heap.gen(rep, tier, "obst4", ("obs_sort",))
@@ -205,6 +210,7 @@ def c05(rep, tier, seed):
     suite_vec.gen(rep, tier, ["elem"], C05_CL)
     suite_table.gen(rep, tier, ["arith"], ("table_arith", "table_width_mismatch"))
     suite_table.enumerated(rep, "methods", ("broadcast",))
+    suite_vec.forms(rep, ("form_elementwise",))          # tuple / range / Vector / Row / column / one-shot iterables as operand
     suite_vec.trace(rep, tier, seed, C05_CL, ops=("elem",))
     suite_heap.gen(rep, tier, "obsv1", ("obs_unary",))      # unary results after any history = on a fresh equal vector
 
@@ -223,6 +229,7 @@ def c07(rep, tier, seed):
     suite_vec.gen(rep, tier, ["slice", "mask", "int", "elem"], C07_CL)
     suite_table.gen(rep, tier, ["select"], ("missing_column", "select_cols", "string_index", "commute"))
     suite_vec.trace(rep, tier, seed, C07_CL, ops=("slice", "mask"))
+    suite_vec.forms(rep, ("form_index",))
     suite_repo.validate(rep, {"getitem"}, ("getitem", "index_accepts", "index_rejects"))     # every v[key] the repository's own tests execute
     suite_heap.gen(rep, tier, "obsv2", ("obs_cmp",))
     suite_heap.gen(rep, tier, "obst3", ("obs_select",))     # selections after rename histories (live view / rename_column)
@@ -236,6 +243,7 @@ def c08(rep, tier, seed):
     suite_vec.gen(rep, tier, ["assign", "atype"], C08_CL)
     suite_table.gen(rep, tier, ["tassign", "rename"], C08_CL + ("table_atomic", "table_assign_cells", "rename", "rename_reject", "rename_atomic"))
     suite_vec.trace(rep, tier, seed, C08_CL, ops=("assign",))
+    suite_vec.forms(rep, ("form_assign", "form_assign_atomic"))
     suite_repo.validate(rep, {"setitem"}, ("assign", "assign_reject", "atomic"))              # every v[key] = x the repository's own tests execute
     suite_heap.gen(rep, tier, "tables", ("contents@target", "write_error", "setattr_error"))
 
